@@ -179,7 +179,7 @@ func checkC18(c *Ctx) {
 		for root.Parent() != nil {
 			root = root.Parent()
 		}
-		if callerSets[root.Name()] {
+		if callerSets[strings.TrimPrefix(u.fname(root), "pkg/syntax/zh.")] {
 			continue
 		}
 		for _, in := range instrsOf(f) {
